@@ -387,6 +387,13 @@ func genLatency(r *kernel.Rand, class string) scn.Latency {
 	return l
 }
 
+func max(a, b int) int {
+	if a > b {
+		return a
+	}
+	return b
+}
+
 func min(a, b int) int {
 	if a < b {
 		return a
